@@ -26,7 +26,18 @@ LawCRule == LET c == BCase(Ev.case) IN
             /\ \A i \in 1..Len(Ev.probes) : ProbeOK(Ev.probes[i])
             /\ CdfOK(Ev.P, c)
 
-Rule == CASE Ev.op = "law" -> LawRule [] Ev.op = "lawc" -> LawCRule [] OTHER -> FALSE
+\* Knuth's multiplication method: X = number of factors drawn - 1, so X = 0 iff the call returns after one word (a prefix of
+\* the word range: exp(-lambda) exactly, up to the lattice) and, in f32, X <= 1 iff it returns after two (2^48 tickets)
+KTol(ft) == IF ft = "f32" THEN <<4, 0, 0>> ELSE <<0, 0, 8192>>        \* 2^-20 resp. 2^-51 (four steps of the 53-bit uniform)
+Knuth32Rule == LET c == NTable[Ev.case] IN
+               /\ Ev.res = "Ok" /\ c.fam = Ev.fam /\ Ev.other = 0 /\ Ev.nonint = 0
+               /\ \A i \in 1..Len(Ev.probes) : ProbeOK(Ev.probes[i])
+               /\ Near(Ev.oneword, c.p0, KTol("f32")) /\ Len(Ev.P) = 1 /\ Near(Ev.P[1], c.p1, KTol("f32"))
+Knuth64Rule == LET c == NTable[Ev.case] IN
+               /\ Ev.res = "Ok" /\ c.fam = Ev.fam /\ Ev.witness
+               /\ Near(Ev.p0, c.p0, KTol("f64"))
+
+Rule == CASE Ev.op = "law" -> LawRule [] Ev.op = "lawc" -> LawCRule [] Ev.op = "knuth32" -> Knuth32Rule [] Ev.op = "knuth64" -> Knuth64Rule [] OTHER -> FALSE
 
 TInit == l = 1
 TNext == /\ l <= Len(Rec) /\ l' = l + 1
